@@ -1255,9 +1255,9 @@ func genC04(ctx *hx.Ctx, emit func(hx.Case)) {
 	}
 	// 3. seeded stream: 1–3 injections at random sites (re-walked after each), random options
 	r := ctx.Rng
-	count := 1500
+	count := 1200
 	if ctx.Thorough() {
-		count = 15000
+		count = 10000
 	}
 	for i := 0; i < count; i++ {
 		b := &c04Builder{doc: deepCopy(base).(map[string]any)}
